@@ -106,6 +106,10 @@ impl Arena {
         // If trying to use the doubled capacity will surpass our memory limit, just allocate as much as we can
         } else if self.memory_usage + next_capacity > self.max_memory_usage {
             let remaining_memory = self.max_memory_usage.saturating_sub(self.memory_usage);
+            // The bucket we can still afford must be able to hold the whole string
+            if len > remaining_memory {
+                return Err(LassoError::new(LassoErrorKind::MemoryLimitReached));
+            }
             // Check that we haven't exhausted our memory limit
             self.allocate_memory(remaining_memory)?;
 
